@@ -6,9 +6,9 @@ package account
 // is the list of reservations handed out so far, kept by the harness.
 
 //verif:property C26
-//verif:bound UTXO sets: nConf confirmed + nUnc unconfirmed records with (nConf,nUnc) in {(1,0),(2,0),(1,1),(2,1)} (quick) / up to (3,2) (thorough); every unconfirmed record is either a fresh output or the same output as one of the confirmed records (the state between attaching a block and processing the pool removal); amounts arbitrary below 2^40, valid heights and the current height arbitrary uint64
-//verif:bound request: account, asset and vote of the records vary in one field per obligation (quick: vary = 0 account / 1 asset / 2 vote, the other two fields equal to the request) or in all three (thorough: vary = 3); amount arbitrary below 2^42, useUnconfirmed arbitrary
-//verif:bound histories: VerifC26Reserve = up to nEarlier (quick 0..1, thorough 2) earlier ReserveParticular calls on arbitrary outputs, then optionally Cancel(arbitrary id) or expireReservation(arbitrary instant), then Reserve; VerifC26Particular = an earlier Reserve, then optionally Cancel / expireReservation, then ReserveParticular of an arbitrary (existing or unknown) output
+//verif:bound UTXO sets: nConf confirmed + nUnc unconfirmed records with (nConf,nUnc) in {(1,0),(2,0),(1,1),(2,1)} (quick and thorough); every unconfirmed record is either a fresh output or the same output as one of the confirmed records (the state between attaching a block and processing the pool removal); amounts arbitrary below 2^40, valid heights and the current height arbitrary uint64
+//verif:bound request: account, asset and vote of the records vary in one field per obligation (quick: vary = 0 account / 1 asset / 2 vote, the other two fields equal to the request) or in all three (thorough: vary = 3 with one confirmed and one unconfirmed record); amount arbitrary below 2^42, useUnconfirmed arbitrary
+//verif:bound histories: VerifC26Reserve = up to nEarlier (quick 0..1; thorough 2 for one confirmed + one unconfirmed record) earlier ReserveParticular calls on arbitrary outputs, then optionally Cancel(arbitrary id) or expireReservation(arbitrary instant), then Reserve; VerifC26Particular = an earlier Reserve, then optionally Cancel / expireReservation, then ReserveParticular of an arbitrary (existing or unknown) output
 //verif:assume encoding/json.Marshal / Unmarshal round-trip a UTXO record (solver: record looked up by buffer identity; native replay: the real encoder and decoder)
 //verif:assume bc.Hash.String (protobuf text form, used for the database keys) is an injective function of the hash (solver: the 32 raw bytes; native replay: the real text form)
 //verif:assume totals stay below 2^64 (amounts below 2^40: the BTM supply is below 2^61)
@@ -18,10 +18,10 @@ package account
 //verif:override encoding/json.Marshal -> verifC26Marshal
 //verif:override (*github.com/bytom/bytom/protocol/bc.Hash).String -> verifC26HashString
 //verif:obligation fn=VerifC26Reserve args=1,0,0,1;2,0,0,1;1,1,0,1;1,1,1,1;1,1,2,1 secs=900 validate=12
-//verif:obligation fn=VerifC26Reserve args=2,1,0,1;2,1,1,0;2,1,2,0 secs=900
-//verif:obligation fn=VerifC26Reserve args=1,1,0,2;2,1,3,1;3,1,0,1;2,2,0,1 tier=thorough secs=3000 paths=4000000
+//verif:obligation fn=VerifC26Reserve args=2,1,0,0;2,1,1,0;2,1,2,0 secs=900
+//verif:obligation fn=VerifC26Reserve args=2,1,0,1;1,1,0,2;1,1,3,1 tier=thorough secs=3000 paths=4000000
 //verif:obligation fn=VerifC26Particular args=1,1,0;2,0,0 secs=900 validate=12
-//verif:obligation fn=VerifC26Particular args=2,1,0;2,1,3 tier=thorough secs=3000 paths=4000000
+//verif:obligation fn=VerifC26Particular args=2,1,0 tier=thorough secs=3000 paths=4000000
 
 import (
 	"bytes"
